@@ -64,6 +64,23 @@ let handle (p : string) : string =
      | HR (r, (a', s')) ->
        Printf.sprintf "r=%s;a=%s;s=%s;class=help%s:%s" (ropt_s r) (nlist_s a') (hex_of_bytes s') f
          (match r with None -> "none" | Some r -> "type" ^ string_of_int (int_of_n r.r_type)))
+  | ["ackt"; uid; s1; s2; s3; s4; seq] ->
+    let cfg = { c_model = bytes_of_hex s1; c_manu = bytes_of_hex s2; c_label = bytes_of_hex s3;
+                c_version = bytes_of_hex s4 } in
+    let now = ref 0 in
+    let hist = List.map (fun e ->
+        let i = String.index e ':' in
+        now := !now + 1000 * ios (String.sub e 0 i);
+        (n_of_int !now, fst (parse_req (String.sub e (i + 1) (String.length e - i - 1)))))
+        (String.split_on_char '/' seq) in
+    let outs, st = at_run cfg (n_of_string uid) hist at_init in
+    let acks = List.length (List.filter (fun o -> match o with
+        | [(_, Some r)] -> int_of_n r.r_type = 1 | _ -> false) outs) in
+    let qm = List.length (List.filter (fun o -> match o with
+        | [(_, Some r)] -> int_of_n r.r_cc = 0x31 && int_of_n r.r_type = 0 && r.r_data = [] && int_of_n r.r_pid <> 0x30
+        | _ -> false) outs) in
+    Printf.sprintf "t=%s;qc=%d;class=ackt:timers%d" (String.concat "/" (List.map replies_s outs))
+      (int_of_n (qcount st)) (min acks 3)
   | ["sweep"; kind; uid; seq] ->
     let uid = n_of_string uid in
     let reqs = List.map parse_req (String.split_on_char '/' seq) in
